@@ -1,5 +1,6 @@
 import CanvasProofs.Lemmas.C04
 import CanvasProofs.Lemmas.C04Proto
+import CanvasProofs.Lemmas.C04Spec
 /-! # C04 — Stroke / Offset: offset normals, cappers, joiners, miter limit, call protocol of `offset()`
 
 Kernels and skeleton are the hand-written `Canvas.C04` definitions (tied to /repo/path_stroke.go by
@@ -380,6 +381,148 @@ theorem proto_none_iff (eqN : Pt α → Pt α → Bool) (segs : List (Seg α)) (
     cases closed <;> cases strokeOpen <;> simp
 
 end protocol
+
+/-! ## Offset is one side of the stroke; paths with several subpaths (dashes) -/
+section wholepath
+variable {α : Type} [Neg α]
+
+/-- `Offset` (strokeOpen = false) requests exactly the joins `Stroke` requests, and never a cap: the
+offset contour is the `rhs` / `lhs` side of the stroke outline. -/
+theorem offset_is_one_side (eqN : Pt α → Pt α → Bool) (first : Seg α) (rest : List (Seg α)) (closed : Bool) :
+    ∃ po ps, offsetProto eqN (first :: rest) closed false = some po ∧
+      offsetProto eqN (first :: rest) closed true = some ps ∧
+      po.events = ps.events.filter Ev.isJoin ∧ po.events.filter Ev.isCap = [] := by
+  have hj := joinsFrom_all_join eqN first closed (first :: rest)
+  cases closed
+  · refine ⟨_, _, rfl, rfl, ?_, ?_⟩
+    · simp only [List.filter_append, filter_isJoin_of_all _ hj]
+      simp [Ev.isJoin]
+    · exact filter_isCap_of_all _ hj
+  · refine ⟨_, _, rfl, rfl, ?_, ?_⟩
+    · exact (filter_isJoin_of_all _ hj).symm
+    · exact filter_isCap_of_all _ hj
+
+/-- caps requested for one subpath -/
+theorem sub_caps (eqN : Pt α → Pt α → Bool) (s : SubPath α) (strokeOpen : Bool) :
+    ((subEvents eqN strokeOpen s).filter Ev.isCap).length
+      = if s.1.isEmpty || s.2 || !strokeOpen then 0 else 2 := by
+  obtain ⟨segs, closed⟩ := s
+  cases segs with
+  | nil => simp [subEvents, offsetProto]
+  | cons first rest =>
+    obtain ⟨pr, hpr, _, hc, _, _⟩ := protocol eqN first rest closed strokeOpen
+    simp only [subEvents, hpr, hc]
+    cases closed <;> cases strokeOpen <;> simp
+
+/-- Stroking a path with several subpaths (e.g. the dashes produced by `Dash`): the cappers are called
+exactly twice for every open, non-empty subpath and never for a closed one. -/
+theorem path_caps (eqN : Pt α → Pt α → Bool) (subs : List (SubPath α)) (strokeOpen : Bool) :
+    ((pathEvents eqN subs strokeOpen).filter Ev.isCap).length
+      = (subs.map fun s => if s.1.isEmpty || s.2 || !strokeOpen then 0 else 2).sum := by
+  induction subs with
+  | nil => simp [pathEvents]
+  | cons s tl ih =>
+    simp only [pathEvents, List.flatMap_cons, List.filter_append, List.length_append, List.map_cons,
+      List.sum_cons] at ih ⊢
+    rw [sub_caps eqN s strokeOpen, ih]
+
+/-- dashes → stroke: when every subpath is open and non-empty (what `Dash` produces from an open path)
+the stroke has `2·k` caps and `k` contours for `k` dashes. -/
+theorem dashed_stroke (eqN : Pt α → Pt α → Bool) (subs : List (SubPath α))
+    (hopen : ∀ s ∈ subs, s.1.isEmpty = false ∧ s.2 = false) :
+    ((pathEvents eqN subs true).filter Ev.isCap).length = 2 * subs.length ∧
+    pathContours subs true = subs.length := by
+  constructor
+  · rw [path_caps]
+    induction subs with
+    | nil => simp
+    | cons s tl ih =>
+      have h := hopen s (by simp)
+      have := ih (fun t ht => hopen t (List.mem_cons_of_mem _ ht))
+      simp only [List.map_cons, List.sum_cons, List.length_cons, h.1, h.2] at this ⊢
+      simp at this ⊢
+      omega
+  · unfold pathContours
+    induction subs with
+    | nil => simp
+    | cons s tl ih =>
+      have h := hopen s (by simp)
+      have := ih (fun t ht => hopen t (List.mem_cons_of_mem _ ht))
+      simp only [List.map_cons, List.sum_cons, List.length_cons, h.1, h.2] at this ⊢
+      simp at this ⊢
+      omega
+
+end wholepath
+
+/-! ## exact region specification (flat paths): the verdict functions decide the property's predicate -/
+section exactspec
+open Canvas.Wn Canvas.C04.Spec C04S
+
+/-- `nearSeg p a b d2` ⇔ some point `a + t(b−a)`, `0 ≤ t ≤ 1`, is at squared distance `< d2` from `p` -/
+theorem near_verdict_exact (p a b : IPt) (d2 : Int) :
+    nearSeg p a b d2 = true ↔ ∃ t : ℚ, 0 ≤ t ∧ t ≤ 1 ∧ segDist2 p a b t < d2 := nearSeg_iff p a b d2
+
+/-- `farFromSeg p a b d2` ⇔ every point of the segment is at squared distance `> d2` from `p` -/
+theorem far_verdict_exact (p a b : IPt) (d2 : Int) :
+    farFromSeg p a b d2 = true ↔ ∀ t : ℚ, 0 ≤ t → t ≤ 1 → (d2 : ℚ) < segDist2 p a b t :=
+  farFromSeg_iff p a b d2
+
+/-- the verdict "closer than `w/2 − tol` to the path" is exact for polylines -/
+theorem near_path_exact (p : IPt) (d : Int) (chains : List (List IPt)) :
+    nearPath p d chains = true ↔
+      ∃ c ∈ chains, ∃ s ∈ consec c, ∃ t : ℚ, 0 ≤ t ∧ t ≤ 1 ∧ segDist2 p s.1 s.2 t < d :=
+  nearPath_iff p d chains
+
+/-- the verdict "farther than `w/2 + tol` from the path" is exact for polylines -/
+theorem far_path_exact (p : IPt) (d : Int) (chains : List (List IPt)) :
+    farPath p d chains = true ↔
+      ∀ c ∈ chains, ∀ s ∈ consec c, ∀ t : ℚ, 0 ≤ t → t ≤ 1 → (d : ℚ) < segDist2 p s.1 s.2 t :=
+  farPath_iff p d chains
+
+/-- no point is demanded filled (below `lo²`) and demanded empty (above `hi²`) at once when `lo ≤ hi` -/
+theorem verdicts_exclusive (p a b : IPt) (lo2 hi2 : Int) (h : lo2 ≤ hi2) :
+    ¬(nearSeg p a b lo2 = true ∧ farFromSeg p a b hi2 = true) :=
+  fun hh => near_far_exclusive p a b lo2 hi2 h hh.1 hh.2
+
+/-- a larger tolerance band only removes demands: both verdicts are monotone -/
+theorem verdicts_monotone (p a b : IPt) (d d' : Int) (h : d ≤ d') :
+    (nearSeg p a b d = true → nearSeg p a b d' = true) ∧
+    (farFromSeg p a b d' = true → farFromSeg p a b d = true) :=
+  ⟨nearSeg_mono p a b d d' h, farFromSeg_anti p a b d d' h⟩
+
+/-- the verdicts do not depend on where the drawing sits (translation invariance) -/
+theorem verdicts_translation_invariant (u p a b : IPt) (d : Int) :
+    nearSeg (shift u p) (shift u a) (shift u b) d = nearSeg p a b d ∧
+    farFromSeg (shift u p) (shift u a) (shift u b) d = farFromSeg p a b d :=
+  ⟨nearSeg_translate u p a b d, farFromSeg_translate u p a b d⟩
+
+/-- the slab the stroker must fill lies within `lo` of its segment -/
+theorem slab_demand_sound (p a b : IPt) (lo band : Int) (h : inSlab p a b lo band = true) :
+    nearSeg p a b (lo * lo) = true := inSlab_near p a b lo band h
+
+/-- the bevel triangle at a join lies in the open disc of radius `lo` around the vertex -/
+theorem bevel_triangle_in_disc (qx qy r0x r0y r1x r1y lo : Int)
+    (h : bevelCore qx qy r0x r0y r1x r1y lo = true) : qx * qx + qy * qy < lo * lo :=
+  bevelCore_disc qx qy r0x r0y r1x r1y lo h
+
+/-- Bevel / Round joins and Round / Square caps: every point the specification demands is within `lo` of
+a segment of the path — the exact specification never demands more than the property does. -/
+theorem spec_demands_only_near_points (st : Style) (g : Geo) (L : Lens) (p : IPt) (hj : st.join ≤ 1)
+    (h : mustFill st g L p = true) :
+    (∃ s ∈ g.segs, nearSeg p s.1 s.2 (L.lo * L.lo) = true) ∨
+    (∃ t ∈ g.joins, nearSeg p t.1 t.2.1 (L.lo * L.lo) = true) ∨
+    (∃ e ∈ g.ends, nearSeg p e.1 e.2 (L.lo * L.lo) = true) := mustFill_near st g L p hj h
+
+/-- non-vacuity: concrete points in a slab, a bevel triangle, a round sector and a round cap -/
+example : inSlab ⟨5, 2⟩ ⟨0, 0⟩ ⟨10, 0⟩ 3 1 = true := by decide
+example : inBevel ⟨11, -1⟩ ⟨0, 0⟩ ⟨10, 0⟩ ⟨10, 10⟩ 4 = true := by decide
+example : joinFilled ⟨0, 1, 4, 1⟩ ⟨12, -2⟩ ⟨0, 0⟩ ⟨10, 0⟩ ⟨10, 10⟩ 4 = true := by decide
+example : capFilled ⟨1, 1, 4, 1⟩ ⟨12, 1⟩ ⟨0, 0⟩ ⟨10, 0⟩ 4 = true := by decide
+example : nearSeg ⟨5, 2⟩ ⟨0, 0⟩ ⟨10, 0⟩ 9 = true ∧ farFromSeg ⟨5, 4⟩ ⟨0, 0⟩ ⟨10, 0⟩ 9 = true := by decide
+example : mustFill ⟨0, 1, 4, 1⟩ (geoOf [([⟨0, 0⟩, ⟨10, 0⟩, ⟨10, 10⟩], false)]) ⟨4, 6, 5, 1⟩ ⟨12, -2⟩ = true := by
+  decide
+
+end exactspec
 
 /-! ## the first loop on flat subpaths -/
 
